@@ -6,6 +6,7 @@ pub mod c04;
 pub mod c05;
 pub mod c06;
 pub mod c07;
+pub mod c08;
 pub mod c13;
 pub mod c15;
 pub mod c16;
@@ -20,6 +21,7 @@ pub const ALL: &[(&str, RunFn)] = &[
     ("C05", c05::run),
     ("C06", c06::run),
     ("C07", c07::run),
+    ("C08", c08::run),
     ("C13", c13::run),
     ("C15", c15::run),
     ("C16", c16::run),
